@@ -178,6 +178,9 @@ func runC07(c *kit.Ctx) {
 			for _, r := range returnsOf(l.fn) {
 				e := kit.Canon(r.Results[0])
 				okc := e.IsCallTo(l.next) && e.Mentions(func(x *kit.Expr) bool { return x.Kind == "param" })
+				if l.fn == replaceSep && isSlashReplaceAll(e) {
+					okc = true // strings.ReplaceAll(s, "/", "<harmless>") is the same mapping
+				}
 				c.Check(okc, "R07.1", k.key(l.fn, "result passes "+l.next.Name()), posOf(r),
 					l.fn.Name()+" returns "+l.next.Name()+"(...) of its argument",
 					l.fn.Name()+" returns "+e.String()+": the separator replacement is no longer on the data path of cleanName")
@@ -193,6 +196,14 @@ func runC07(c *kit.Ctx) {
 			}
 			if e.IsCallTo(stringsMap) && len(e.Args) == 2 && e.Args[0].Kind == "func" {
 				cl = e.Args[0].Fn
+			}
+		}
+		for _, r := range returnsOf(replaceSep) {
+			if isSlashReplaceAll(kit.Canon(r.Results[0])) {
+				okm = true
+			} else {
+				okm = false
+				break
 			}
 		}
 		if cl != nil && len(cl.Params) == 1 {
@@ -608,4 +619,18 @@ func runC07(c *kit.Ctx) {
 		c.Floor("R07.3", "multi-file File stores", n, 1)
 	}
 	_ = fInfoName
+}
+
+// isSlashReplaceAll: strings.ReplaceAll(<param>, "/", r) with a replacement that is neither empty
+// nor contains a separator or a dot.
+func isSlashReplaceAll(e *kit.Expr) bool {
+	if e == nil || e.Kind != "call" || e.Fn == nil || kit.FnPkgPath(e.Fn) != "strings" || e.Fn.Name() != "ReplaceAll" || len(e.Args) != 3 {
+		return false
+	}
+	if e.Args[0].Kind != "param" {
+		return false
+	}
+	old, ok1 := constString(e.Args[1])
+	repl, ok2 := constString(e.Args[2])
+	return ok1 && ok2 && old == "/" && repl != "" && !strings.ContainsAny(repl, "/\\.")
 }
